@@ -311,7 +311,8 @@ def _case(seed: int) -> Dict[str, Any]:
     nr = 1 + seed % 3
     # every third case: operator names that also occur as user annotations (one name under two categories)
     a = gen.gen_trace_set(seed, n_ranks=nr, steps=2 + seed % 2, n_top=2, n_streams=2, p_dual_cat=0.5 if seed % 3 == 0 else 0.0,
-                          step_base=9 if seed % 2 else 10)  # 9, 10, 11: numeric order differs from the order of the annotation strings
+                          step_base=9 if seed % 2 else 10,  # 9, 10, 11: numeric order differs from the order of the annotation strings
+                          **({"first_op_in_step": True, "p_orphan_kernel": 0.3} if seed % 4 == 3 else {}))  # event 0 inside a step + device activities whose launch was not captured
     if seed % 4 == 2:
         # two ranks of one run executing the very same operators (identical vocabularies on every rank), the SECOND rank selected
         import copy as _copy
@@ -344,6 +345,16 @@ def _case(seed: int) -> Dict[str, Any]:
         except rt.LibFailure:
             return {"n_checks": 1, "fails": fails, "nontrivial": True}
 
+        # a device activity whose launching call is not in the file belongs to no iteration (it is counted in none)
+        for lt, src in ((la, a), (lb, b)):
+            for rk in lt.ranks():
+                df_ = lt.t.get_trace(rk)
+                host_corr = {int(c) for c, s_ in zip(df_["correlation"], df_["stream"]) if int(s_) == -1 and int(c) >= 0}
+                n += 1
+                stray = [(int(i), int(it_)) for i, c, s_, it_ in zip(df_["index"], df_["correlation"], df_["stream"], df_["iteration"]) if int(s_) > 0 and int(c) not in host_corr and int(it_) != -1]
+                if stray:
+                    fails.append({"what": "device_activity_without_launch_call_belongs_to_no_iteration", "input": {**inp, "rank": rk}, "observed": stray[:5], "expected": "iteration -1"})
+                    break
         if twins:
             ids = [i for i, e in gen.complete_events(a[0]) if any(e is t_ for t_ in twins)]
             have = set(int(x) for x in la.t.get_trace(0)["index"])
